@@ -67,6 +67,7 @@ type SimConn struct {
 	FaultFired map[string]int
 	EmptyReads int
 	Started    bool
+	Stalled    bool
 	lastAlloc  uint64
 
 	// duplex mode (a real client goroutine on the other end, engine E2)
@@ -306,6 +307,15 @@ func (c *SimConn) Write(p []byte) (int, error) {
 		c.FaultFired["write-err"]++
 		c.rec("write", fmt.Sprintf("fault accepted=%d of %d", j, len(p)))
 		return j, errSimBroken
+	}
+	if f := c.fault("write-stall", idx); f != nil && c.rt.K.enabled {
+		// a stalled peer: it stops reading, the server's write never completes
+		// (engine E2 only; the goroutine stays blocked until teardown)
+		c.FaultFired["write-stall"]++
+		c.rec("write", "stalled")
+		c.Stalled = true
+		c.rt.K.Block(c.task, "write-stall", neverReady)
+		return 0, errSimBroken
 	}
 	if f := c.fault("write-err-transient", idx); f != nil {
 		c.FaultFired["write-err-transient"]++
